@@ -316,7 +316,35 @@ def rule_mode(chk):
     pnode, _pm = common.node_of_call(cfg, pcall)
     ctor_nodes = [n for n in cfg.live for c, m in calls_in_node(n) if unparse(c.func).endswith("PClass.__new__")]
     if pnode is not None and ctor_nodes:
-        okp, witp = cfg.must_pass([cfg.entry], ctor_nodes, [pnode], skip_labels=("exc",))
+        # a path may skip the probe only where the stream's class already says which kind of data its write() takes
+        SOUND = {"TextIOBase": True, "StringIO": True, "TextIOWrapper": True,
+                 "RawIOBase": False, "BufferedIOBase": False, "BytesIO": False, "BufferedWriter": False, "BufferedRandom": False, "FileIO": False}
+        shortcut_edges = set()
+        for t in cfg.live:
+            if t.kind != "test":
+                continue
+            e, lab = X.strip_not(t.exprs[0], "true")
+            if not (isinstance(e, ast.Call) and isinstance(e.func, ast.Name) and e.func.id == "isinstance" and len(e.args) == 2 and isinstance(e.args[0], ast.Name) and e.args[0].id == fparam):
+                continue
+            classes = [unparse(c_).split(".")[-1] for c_ in (e.args[1].elts if isinstance(e.args[1], ast.Tuple) else [e.args[1]])]
+            after = [s_ for s_, l_ in t.succ if l_ == lab]
+            decides = [s_ for s_ in after if isinstance(s_.ast, ast.Assign) and s_.kind != "test" and isinstance(s_.ast.value, ast.Constant) and isinstance(s_.ast.value.value, bool)]
+            if not decides:
+                continue   # the test does not decide the mode by itself (e.g. the writable() check)
+            kinds = {SOUND.get(c_) for c_ in classes}
+            if len(kinds) == 1 and None not in kinds:
+                shortcut_edges.add((t, lab))
+                chk.req(decides[0].ast.value.value is kinds.pop(), "C10.mode", "FileDestination.__new__:class-shortcut(%s)" % "/".join(classes), chk.where(f, t.lineno),
+                        good="isinstance(file, %s) decides the mode the way that class's write() works" % "/".join(classes),
+                        fail="isinstance(file, %s) selects %s mode, but write() of such a stream takes %s" % ("/".join(classes), "text" if decides[0].ast.value.value else "binary",
+                                                                                                              "bytes" if decides[0].ast.value.value else "str"))
+            else:
+                chk.bad("C10.mode", "FileDestination.__new__:class-shortcut(%s)" % "/".join(classes), chk.where(f, t.lineno),
+                        "`%s` decides the text/binary mode without probing, but that class does not determine what write() takes: a text stream whose class derives from it directly "
+                        "(tempfile.SpooledTemporaryFile(mode='w') derives from io.IOBase on Python 3.11+, as may any user-defined stream) is treated as binary, every write raises TypeError "
+                        "and no line is ever written" % unparse(t.exprs[0])[:60])
+                shortcut_edges.add((t, lab))
+        okp, witp = cfg.must_pass([cfg.entry], ctor_nodes, [pnode], skip_labels=("exc",), avoid_edges=shortcut_edges)
         chk.req(okp, "C10.mode", "FileDestination.__new__:probe-runs-for-every-file", chk.where(f, pcall.lineno),
                 good="file.write(b'') is executed on every path that constructs the destination",
                 fail="the text/binary probe is skipped on some path (%s): the mode is then taken from somewhere else than this file" % cfg.fmt_path(witp))
